@@ -614,6 +614,9 @@ func (d *PathDecoder) collectInferredReferenceTargetsForBody(addr lang.Address, 
 		}
 
 		for i, b := range bCollection.Blocks {
+			if len(b.Labels) == 0 {
+				continue
+			}
 			elemAddr := append(blockAddr.Copy(), lang.IndexStep{
 				Key: cty.StringVal(b.Labels[0]),
 			})
